@@ -59,7 +59,7 @@ func c14Model(s *c14Shape) {
 		default:
 			s.accept = true
 		}
-	case "extend":
+	case "extend", "extendrx":
 		// the first result is the target: `func(KA) error` is a valid (here unused) function converting KA to error
 		s.accept = sources == 1 && okRes("T", "T,error", "error")
 	case "map", "default":
@@ -77,13 +77,13 @@ func c14Shapes(use string, roleSet []string, resultSet []string, maxParams int, 
 		if countRole(cur, "U") <= 1 && countRole(cur, "I") <= 1 {
 			for _, res := range resultSet {
 				for _, named := range []bool{true, false} {
-					if !named && (!namedVariants || countRole(cur, "CRU") > 0) {
+					if !named && (!namedVariants || (countRole(cur, "CRU") > 0 && use != "structmethod")) {
 						continue // contexts / update ARG need parameter names
 					}
 					s := c14Shape{use: use, named: named, roles: append([]string{}, cur...), results: res, regexAt: "conv"}
 					c14Model(&s)
 					out = append(out, s)
-					if countRole(cur, "R") > 0 && use != "extend" && use != "structmethod" {
+					if countRole(cur, "R") > 0 && use != "extend" && use != "extendrx" && use != "structmethod" {
 						s2 := s
 						s2.roles = append([]string{}, cur...)
 						s2.regexAt = "meth"
@@ -255,6 +255,11 @@ func c14FuncCase(name string, s c14Shape) *pgen.Case {
 		case "B":
 			params = append(params, pname(s.named, fmt.Sprintf("ob%d", i))+"KB")
 		case "C":
+			if s.use == "structmethod" && !s.named {
+				// every parameter of a source method is a context, named or not
+				params = append(params, fmt.Sprintf("CtxQ%d", i))
+				break
+			}
 			params = append(params, fmt.Sprintf("c%d CtxQ%d", i, i))
 			docs = append(docs, fmt.Sprintf("// goverter:context c%d", i))
 			sum = append(sum, fmt.Sprintf("c%d.W", i))
@@ -313,6 +318,10 @@ func c14FuncCase(name string, s c14Shape) *pgen.Case {
 	case "extend":
 		sb.WriteString(strings.Join(docs, "\n") + "\nfunc Fn" + sig + " { " + body + " }\n")
 		conv = append(conv, "extend Fn")
+	case "extendrx":
+		// selected by a regular expression: the function-level goverter:context lines must still be found
+		sb.WriteString(strings.Join(docs, "\n") + "\nfunc Fn" + sig + " { " + body + " }\n")
+		conv = append(conv, "extend Fn.*")
 	case "map":
 		sb.WriteString(strings.Join(docs, "\n") + "\nfunc Fn" + sig + " { " + body + " }\n")
 		meth = append(meth, "map K K | Fn")
@@ -340,7 +349,7 @@ func c14FuncCase(name string, s c14Shape) *pgen.Case {
 	// expected K.N
 	exp := "5" // automatic conversion of K (N: 5)
 	usesFn := true
-	if s.use == "extend" && (countRole(s.roles, "S") == 0 || s.results == "error") {
+	if (s.use == "extend" || s.use == "extendrx") && (countRole(s.roles, "S") == 0 || s.results == "error") {
 		usesFn = false // an extend function for another pair is valid but unused
 	}
 	if usesFn {
@@ -397,14 +406,16 @@ func C14(e *core.Env) int {
 	for _, use := range []string{"extend", "map", "default"} {
 		shapes = append(shapes, c14Shapes(use, []string{"S", "B", "C", "R", "I"}, funcRes, 3, true)...)
 	}
-	shapes = append(shapes, c14Shapes("structmethod", []string{"C"}, funcRes, 2, false)...)
+	shapes = append(shapes, c14Shapes("extendrx", []string{"S", "C", "R"}, []string{"T", "T,error"}, 3, false)...)
+	shapes = append(shapes, c14Shapes("structmethod", []string{"C"}, funcRes, 2, true)...)
 	total := len(shapes)
 	if e.Tier != "thorough" {
 		// quick: seeded sample that keeps every accepted shape with probability 1/2 and rejected ones with 1/5
 		r := rand.New(rand.NewSource(e.Seed*31 + 14))
 		var sel []c14Shape
 		for _, s := range shapes {
-			if (s.accept && r.Intn(2) == 0) || (!s.accept && r.Intn(6) == 0) {
+			small := s.use == "structmethod" || s.use == "extendrx" // small families are always complete
+			if small || (s.accept && r.Intn(2) == 0) || (!s.accept && r.Intn(6) == 0) {
 				sel = append(sel, s)
 			}
 		}
